@@ -1,5 +1,5 @@
 """property id -> (spec, harness group)"""
-from . import props_alg, props_alias, props_lin, props_est, props_eig, props_sim, props_tm
+from . import props_alg, props_alias, props_lin, props_est, props_eig, props_sim, props_tm, props_rand
 
 SPECS = {}
 for pid, spec in props_alg.SPECS.items():
@@ -16,4 +16,6 @@ for pid, spec in props_sim.SPECS.items():
     SPECS[pid] = (spec, props_sim.GROUP)
 for pid, spec in props_tm.SPECS.items():
     SPECS[pid] = (spec, props_tm.GROUP)
+for pid, spec in props_rand.SPECS.items():
+    SPECS[pid] = (spec, props_rand.GROUP)
 NOT_CLAIMED = {}
